@@ -66,6 +66,7 @@ func (m *Monitors) Check(c *Chain, o Op, res string) []string {
 	}
 	v = append(v, m.c11(c, o, res, prevBal)...)
 	v = append(v, m.betMonitors(c, o, res, m.prev, cur)...)
+	v = append(v, m.c17(cur)...)
 	v = append(v, m.c06(c, o, res)...)
 	v = append(v, m.c14(c, o, res)...)
 	m.prev = cur
@@ -472,6 +473,32 @@ func (m *Monitors) c11(c *Chain, o Op, res string, prevBal map[string]*big.Int) 
 		}
 	case "SEND":
 		// direct sends to a subaccount address are allowed and tracked (ledger is then a lower bound)
+	}
+	return v
+}
+
+// ---- C17 ---------------------------------------------------------------------------------------------
+// no accepted parameter value may make an amount negative or a fee exceed the amount it is taken from
+func (m *Monitors) c17(cur *Snap) []string {
+	var v []string
+	for mk, ps := range cur.Parts {
+		for _, p := range ps {
+			if p.Liquidity.IsNegative() || p.Fee.IsNegative() || p.CurrentRoundLiquidity.IsNegative() {
+				v = append(v, fmt.Sprintf("C17 participation %d of market %d has a negative amount (liquidity %s, fee %s)", p.Index, uidNum(mk), p.Liquidity, p.Fee))
+			}
+		}
+	}
+	for _, d := range cur.Deposits {
+		p := cur.part(d.MarketUID, d.ParticipationIndex)
+		if p != nil && p.Fee.GT(d.Amount) {
+			v = append(v, fmt.Sprintf("C17 participation fee %s exceeds the deposit %s it is taken from", p.Fee, d.Amount))
+		}
+	}
+	for i := range cur.Bets {
+		b := &cur.Bets[i]
+		if b.Amount.IsNegative() || b.Fee.IsNegative() {
+			v = append(v, fmt.Sprintf("C17 bet %d has a negative amount or fee (%s, %s)", b.ID, b.Amount, b.Fee))
+		}
 	}
 	return v
 }
